@@ -420,7 +420,7 @@ func (r *Reconciler) applyChange(ctx context.Context, transaction *configapi.Tra
 		if ok, err := r.applyValues(ctx, transaction, configuration, values); !ok {
 			return controller.Result{}, false, err
 		} else if err != nil {
-			code := status.Code(err)
+			code := errorCode(err)
 			switch code {
 			case codes.Unavailable, codes.Canceled, codes.DeadlineExceeded:
 				return controller.Result{}, false, err
@@ -775,7 +775,7 @@ func (r *Reconciler) applyRollback(ctx context.Context, transaction *configapi.T
 		if ok, err := r.applyValues(ctx, transaction, configuration, values); !ok {
 			return controller.Result{}, false, err
 		} else if err != nil {
-			code := status.Code(err)
+			code := errorCode(err)
 			switch code {
 			case codes.Unavailable, codes.Canceled, codes.DeadlineExceeded:
 				return controller.Result{}, false, err
@@ -1088,4 +1088,13 @@ func addDeleteChildren(index configapi.Index, changeValues map[string]configapi.
 		}
 	}
 	return updChangeValues
+}
+
+// errorCode returns the gRPC status code of an error returned by the southbound client. The client
+// converts gRPC status errors to typed errors, for which status.Code always reports Unknown.
+func errorCode(err error) codes.Code {
+	if _, ok := err.(*errors.TypedError); ok {
+		return errors.Status(err).Code()
+	}
+	return status.Code(err)
 }
